@@ -83,6 +83,10 @@ class Abort(BaseException):
     pass
 
 
+class Skip(BaseException):
+    """a late worker whose message never appeared: the thread ends without having handled anything"""
+
+
 def _conn_class():
     from harness import driver
 
@@ -151,6 +155,9 @@ class Scheduler:
         self.cands: list[list[int]] = []
         self.chooser = chooser
         self.error = None
+        self.late_ready = None      # callable(idx) -> row id or None: is the late worker's message in the queue?
+        self.on_grant_late = None   # callable(idx, row id): make that row the only deliverable one
+        self.skipped: set[int] = set()
 
     def point(self, idx: int, kind: str) -> None:
         with self.cv:
@@ -161,6 +168,9 @@ class Scheduler:
             while self.granted != idx:
                 if self.abort:
                     raise Abort()
+                if idx in self.skipped:
+                    self.waiting.pop(idx, None)
+                    raise Skip()
                 self.cv.wait(0.5)
             self.granted = None
             self.waiting.pop(idx, None)
@@ -192,11 +202,21 @@ class Scheduler:
                 if len(self.finished) == self.n:
                     return
                 enabled = []
+                late_rows = {}
                 for i, k in sorted(self.waiting.items()):
-                    if k in ("U", "E") and any(j != i and c.in_transaction for j, c in self.conns.items()):
+                    if k in ("U", "E", "P") and any(j != i and c.in_transaction for j, c in self.conns.items()):
                         continue
+                    if k == "P":
+                        late_rows[i] = self.late_ready(i) if self.late_ready else None
+                        if late_rows[i] is None:
+                            continue
                     enabled.append(i)
                 if not enabled:
+                    if self.waiting and all(k == "P" for k in self.waiting.values()):
+                        # the messages the late workers wait for were never pushed: they end without handling anything
+                        self.skipped |= set(self.waiting)
+                        self.cv.notify_all()
+                        continue
                     self.error = "deadlock: every waiting thread needs the write lock held by another thread: %r" % (self.waiting,)
                     self.abort = True
                     self.cv.notify_all()
@@ -207,6 +227,8 @@ class Scheduler:
                 c = self.chooser(cand, len(self.trace), last) if len(cand) > 1 else cand[0]
                 self.cands.append(list(cand))
                 self.trace.append((c, self.waiting[c]))
+                if self.waiting[c] == "P":
+                    self.on_grant_late(c, late_rows[c])
                 self.granted = c
                 self.cv.notify_all()
 
@@ -249,6 +271,18 @@ def families() -> dict:
                                               _st("J", ["B", "C", "E"], join="DISCRIMINATOR"), _st("K", ["J"])]},
                           "hold": [("CompleteStage", "C"), ("CompleteStage", "E"), ("StartTask", "J")],
                           "race": [("CompleteStage", "C", 0), ("CompleteStage", "E", 0)], "prop": "C04"}
+    # the StartStage pushed BY the racing CompleteStage is picked up by a worker that joins late (as soon as the row exists): the
+    # only upstream of the first-of join is C, so nothing else can rescue a lost start
+    F["first_of_single"] = {"spec": {"stages": [_st("A"), _st("C", ["A"]), _st("J", ["C"], join="DISCRIMINATOR"), _st("K", ["J"])]},
+                            "hold": [("CompleteStage", "C")],
+                            "race": [("CompleteStage", "C", 0), ("late", "StartStage", "J")], "prop": "C04"}
+    F["quorum_late"] = {"spec": {"stages": [_st("A"), _st("B", ["A"]), _st("C", ["A"]), _st("J", ["B", "C"], join="N_OF_M", threshold=2),
+                                            _st("K", ["J"])]},
+                        "hold": [("CompleteStage", "C"), ("StartStage", "J")],
+                        "race": [("CompleteStage", "C", 0), ("StartStage", "J", 0), ("late", "StartStage", "J")], "prop": "C04"}
+    # a stage without tasks: no task-row CAS behind the stage CAS
+    F["diamond2_notasks"] = {"spec": {"stages": [_st("A"), _st("B", ["A"]), _st("C", ["A"]), _st("D", ["B", "C"], tasks=[]), _st("Z", ["D"])]},
+                             "hold": [("StartStage", "D")], "race": [("StartStage", "D", 0), ("StartStage", "D", 1)], "prop": "C04"}
     F["signal_f8"] = {"spec": {"stages": [_st("A"), _st("B", ["A"])]},
                       "hold": [("StartStage", "B"), ("SignalStage", "B")], "signal": "B",
                       "race": [("StartStage", "B", 0), ("SignalStage", "B", 0)], "prop": "C04", "expect_known": True}
@@ -281,7 +315,7 @@ def families() -> dict:
     return F
 
 
-QUICK = {"C04": ["diamond2", "diamond3", "first_of_sc", "first_of_scc", "quorum_ssc", "quorum_sc", "first_of_late", "signal_f8"],
+QUICK = {"C04": ["diamond2", "diamond2_notasks", "diamond3", "first_of_single", "quorum_late", "first_of_sc", "first_of_scc", "quorum_ssc", "quorum_sc", "first_of_late", "signal_f8"],
          "C11": ["mutex_pair", "mutex_pair_sweep", "mutex_triple", "mutex_steal", "mutex_dup", "choice2_sweep", "choice3", "mutex_choice"]}
 
 # ---------------------------------------------------------------------------------------------------------
@@ -328,6 +362,9 @@ def prepare(name: str, fam: dict, tag: str = "c04") -> Prepared:
     for w in fam["race"]:
         if w[0] == "sweep":
             p.workers.append({"kind": "sweep"})
+            continue
+        if w[0] == "late":
+            p.workers.append({"kind": w[1], "ref": w[2], "late": True, "row": None, "msg": None, "retry": 0})
             continue
         typ, ref, k = w
         cands = [r for r in rows if r["type"] == typ and env.id_ref.get(r["payload"].get("stage_id")) == ref]
@@ -418,9 +455,19 @@ def real_run(p: Prepared, chooser, drain: bool = True) -> dict:
                 try:
                     if w["kind"] == "sweep":
                         out["outcome"][i] = ("swept", env.store.cleanup_completed_stage_claims())
+                    elif w.get("late"):
+                        sched.point(i, "P")          # enabled once a new message of that type for that stage is in the queue
+                        _tl.armed = False
+                        msg = env.queue.poll_one()   # the real poll (lock + attempts + 1): not a step of the model
+                        _tl.armed = True
+                        out["late"][i] = (int(msg.message_id), msg)
+                        env.processor._handle_message(msg)
+                        out["outcome"][i] = ("done",)
                     else:
                         env.processor._handle_message(w["msg"])
                         out["outcome"][i] = ("done",)
+                except Skip:
+                    out["outcome"][i] = ("skipped",)
                 except Abort:
                     raise
                 except Exception as e:  # what process_and_ack does: the message is rescheduled
@@ -433,6 +480,24 @@ def real_run(p: Prepared, chooser, drain: bool = True) -> dict:
                 _tl.armed = False
                 sched.done(i)
 
+        out["late"] = {}
+
+        def late_ready(i):
+            w = p.workers[i]
+            for r in env.hconn.execute("SELECT id, message_type, payload FROM queue_messages WHERE id >= ? ORDER BY id", (p.alpha0["next"],)):
+                if r["message_type"] == w["kind"] and env.id_ref.get(json.loads(r["payload"]).get("stage_id")) == w["ref"] \
+                        and r["id"] not in [v[0] for v in out["late"].values()]:
+                    return r["id"]
+            return None
+
+        def on_grant_late(i, rid):
+            from datetime import UTC, datetime, timedelta
+            near = (datetime.now(UTC) - timedelta(minutes=1)).isoformat()
+            far = (datetime.now(UTC) + timedelta(hours=1)).isoformat()
+            env.hconn.execute("UPDATE queue_messages SET deliver_at = ? WHERE id != ?", (far, rid))
+            env.hconn.execute("UPDATE queue_messages SET deliver_at = ?, locked_until = NULL WHERE id = ?", (near, rid))
+
+        sched.late_ready, sched.on_grant_late = late_ready, on_grant_late
         _SCHED = sched
         threads = [threading.Thread(target=worker, args=(i, w), daemon=True) for i, w in enumerate(p.workers)]
         for t in threads:
@@ -487,7 +552,7 @@ def drain_after(p: Prepared, out: dict) -> dict:
         if w["kind"] == "sweep":
             continue
         if out["outcome"][i] and out["outcome"][i][0] == "done":
-            env.queue.ack(w["msg"])
+            env.queue.ack(out["late"][i][1] if w.get("late") else w["msg"])
     env.hconn.execute("UPDATE queue_messages SET locked_until = NULL")
     steps = 0
     max_running: dict = {}
@@ -602,9 +667,12 @@ def state_term(p: Prepared) -> str:
     return "(mk_state %s %s %s %s %s)" % (a["wf"], stages, queue, cq_nat(a["next"]), cq_list(_cq_claim(c) for c in _claims_of(p, a)))
 
 
-def workers_term(p: Prepared) -> str:
+def workers_term(p: Prepared, r: dict | None = None) -> str:
     ws = []
-    for w in p.workers:
+    for i, w in enumerate(p.workers):
+        if w.get("late"):
+            rid = r["late"][i][0] if r is not None and i in r.get("late", {}) else 4999
+            w = dict(w, row=rid)
         if w["kind"] == "sweep":
             ws.append("WSweeper")
         elif w["kind"] == "StartStage":
@@ -629,8 +697,9 @@ def observed(p: Prepared, r: dict) -> dict:
     pcs = []
     for i, w in enumerate(p.workers):
         o = r["outcome"][i]
-        pcs.append(0 if o and o[0] in ("done", "swept") else 1)
-    return {"kinds": ["KR" if k == "R" else "KT" for _, k in r["trace"]], "sched": [i for i, _ in r["trace"]],
+        pcs.append(0 if o and o[0] in ("done", "swept") else 3 if o and o[0] == "skipped" else 1)
+    steps = [(i, k) for i, k in r["trace"] if k != "P"]      # the poll of a late worker is not a step of the model
+    return {"kinds": ["KR" if k == "R" else "KT" for _, k in steps], "sched": [i for i, _ in steps],
             "stages": [by_ref[ref] for ref in p.refs], "claims": _claims_of(p, a), "queue": a["queue"],
             "processed": r["processed_new"], "starts": starts, "pcs": pcs}
 
@@ -839,7 +908,7 @@ def _job(args):
     try:
         p = prepare(name, F[name], tag="c04")
         runs = explore(p, bound, limit, n_random, seed, root=root)
-        st, wt = state_term(p), workers_term(p)
+        st = state_term(p)
         res = []
         for r in runs:
             item = {"family": name, "choices": [i for i, _ in r["trace"]], "origin": r["origin"], "error": r["error"],
@@ -847,7 +916,7 @@ def _job(args):
                     "steps": len(r["trace"]), "outcome": r["outcome"], "open_txn_left": r.get("open_txn_left")}
             if not r["error"] and not item["crash"]:
                 o = observed(p, r)
-                item["case"] = case_term(p, st, wt, o)
+                item["case"] = case_term(p, st, workers_term(p, r), o)
                 item["mon"] = monitors(p, r)
                 item["summary"] = {"stages": [s["status"] for s in o["stages"]], "claims": o["claims"], "starts": o["starts"],
                                    "new_msgs": [(q["type"], q["stage"], q.get("retry_count")) for q in o["queue"] if q["id"] >= p.alpha0["next"]],
